@@ -676,11 +676,10 @@ Proof.
     rewrite in_app_iff in *. tauto.
   - intros p ->. exists (rank o (ib_body_inputs (t_inputs t))). unfold combined_plutus. rewrite in_app_iff. left.
     unfold ib_plutus. apply in_flat_map. eexists. split; [exact HS |]. cbn [snd fst].
-    assert (HM : memN o (flat_map (fun e : oref * option sid => match snd e with Some _ => [fst e] | None => [] end)
-                                   (ib_inputs (t_inputs t))) = true).
-    { apply memN_in, in_flat_map. exists (o, owner_hash w). split.
+    assert (HM : registered_under (t_inputs t) o (sw_hash (SWPlutus p)) = true).
+    { unfold registered_under. apply existsb_exists. exists (o, owner_hash w). split.
       - rewrite ib_inputs_eq. apply in_map_iff. exists (o, w). split; [reflexivity | exact Hi].
-      - unfold owner_hash. rewrite E. left. reflexivity. }
+      - cbn [fst snd]. unfold owner_hash. rewrite E. cbn [option_map]. rewrite !N.eqb_refl. reflexivity. }
     rewrite HM. left. reflexivity.
 Qed.
 
@@ -762,6 +761,8 @@ Theorem scripts_available_model t : consistent_owners (t_inputs t) = true ->
 Proof.
   intros HC. unfold scripts_available. rewrite !andb_true_iff. repeat split;
     try (apply nodupb_true, set_of_nodup).
+  2: { apply forallb_forall. intros d Hd. apply N.eqb_eq, countN_nodup; [apply set_of_nodup |].
+       unfold model_emitted, ws_datums. cbn [e_datums]. rewrite set_of_in, in_app_iff. right. exact Hd. }
   apply forallb_forall. intros i Hi. unfold script_items in Hi. rewrite !in_app_iff in Hi.
   destruct Hi as [Hi | [Hi | [Hi | [Hi | [Hi | Hi]]]]].
   - apply in_flat_map in Hi. destruct Hi as [[o w] [Ho Hi]]. cbn [snd] in Hi. unfold mk_items in Hi.
@@ -900,7 +901,7 @@ Proof.
   destruct H as [H | [H | [H | [H | [H | [H | H]]]]]].
   - unfold ib_plutus in H. apply in_flat_map in H. destruct H as [[[h o] sw] [He Hx]]. cbn [snd fst] in Hx.
     destruct sw as [n | p]; [destruct Hx |].
-    destruct (memN o _); [| destruct Hx]. destruct Hx as [<- | []].
+    destruct (registered_under _ o h); [| destruct Hx]. destruct Hx as [<- | []].
     eexists. split; [exact (item_of_script_entry t h o _ HC He) | reflexivity].
   - unfold ib_plutus in H. rewrite (collateral_plain_scripts t HP) in H. destruct H.
   - unfold mint_plutus in H. apply in_flat_map in H. destruct H as [m [Hm Hx]].
